@@ -739,7 +739,13 @@ func (s *stubHandler) Authenticate(*csr.ReqParam) error {
 	}
 	// every way of saying no: plain, wrapped, and each of the RA's own error kinds (a handler that is switched off,
 	// misconfigured, given bad parameters, ... has not authenticated anybody either)
-	switch s.authCalls % 9 {
+	switch s.authCalls % 12 {
+	case 9:
+		return gensign.NewErrorWithMsg(gensign.Unknown, s.name, "a failure the handler cannot classify")
+	case 10:
+		return gensign.NewErrorWithMsg(gensign.ErrorType(0), s.name, "a zero error kind")
+	case 11:
+		return gensign.NewErr(gensign.ErrorType(200), errors.New("an error kind of a newer release"))
 	case 1:
 		return errors.New("scripted rejection (plain error)")
 	case 2:
@@ -868,7 +874,7 @@ func handlerLists(r *ev.Run) {
 						var hs []gensign.Handler
 						var stubs []*stubHandler
 						for i := 0; i < n; i++ {
-							s := &stubHandler{name: fmt.Sprintf("stub%d", i), log: &log, authCalls: (mode + i) % 9}
+							s := &stubHandler{name: fmt.Sprintf("stub%d", i), log: &log, authCalls: (mode + i) % 12}
 							switch {
 							case i == pos:
 								s.accept, s.genFails = true, mode
@@ -997,7 +1003,7 @@ func oneList(r *ev.Run, c *ev.Case, n, pat, realPos int, realOK bool, variant in
 			}
 			continue
 		}
-		s := &stubHandler{name: fmt.Sprintf("stub%d", i), accept: pat&(1<<uint(i)) != 0, log: &log, authCalls: (variant + i) % 9}
+		s := &stubHandler{name: fmt.Sprintf("stub%d", i), accept: pat&(1<<uint(i)) != 0, log: &log, authCalls: (variant + i) % 12}
 		stubs = append(stubs, s)
 		hs = append(hs, s)
 		if s.accept && firstAccept == "" {
